@@ -153,6 +153,8 @@ T.update(W4)
 # wave 5 (second-review-pass repairs): same generation
 W5 = {k: tuple(v) for k, v in json.load(open('/verif/tools/seeded_w5.json')).items()}
 T.update(W5)
+W6 = {k: tuple(v) for k, v in json.load(open('/verif/tools/seeded_w6.json')).items()}
+T.update(W6)
 for i, (where, breaks, needs) in sorted(T.items()):
     d = f"{S}/{i}"
     if not os.path.isdir(d):
@@ -163,7 +165,7 @@ for i, (where, breaks, needs) in sorted(T.items()):
     for root, _, fs in os.walk(f"{d}/demo"):
         for f in fs:
             demos.append(os.path.relpath(os.path.join(root, f), f"{d}/demo"))
-    meta.update({"property": i.split("-")[0], "wave": 5 if "-w5" in i else 4 if "-w4" in i else (3 if "-w3" in i else (2 if "-w2" in i else 1)), "changed": where, "breaks": breaks, "needs_to_manifest": needs,
+    meta.update({"property": i.split("-")[0], "wave": 6 if "-w6" in i else 5 if "-w5" in i else 4 if "-w4" in i else (3 if "-w3" in i else (2 if "-w2" in i else 1)), "changed": where, "breaks": breaks, "needs_to_manifest": needs,
                  "demo_files": sorted(demos), "author": "independent sub-agent given only the property text and a scratch worktree",
                  "confirmed_by": "tools/verify_seeded.sh in a scratch worktree of /repo HEAD: patch applies and builds; existing tests of the touched packages with the change; demo with the change (must FAIL); demo without it (must PASS)",
                  "verification": verification(i)})
